@@ -27,6 +27,8 @@ def vjson_to_py(v):
         return "nan"
     if t == "none":
         return None
+    if t == "ident":
+        return Ident(v["r"])
     if t == "list":
         return [vjson_to_py(x) for x in v["xs"]]
     if t == "rec":
@@ -34,6 +36,23 @@ def vjson_to_py(v):
     if t == "str":
         return bytes(v["b"]).decode("latin-1")
     raise ValueError("bad vjson " + repr(v))
+
+
+class Ident(object):
+    """identity of min/max for an empty group: the dtype's extreme (or +-inf for floats)"""
+    EXTREMES = {"min": {2 ** 63 - 1, 2 ** 31 - 1, 2 ** 15 - 1, 127, 2 ** 64 - 1, 2 ** 32 - 1, 2 ** 16 - 1, 255, "inf", 1, True},
+                "max": {-2 ** 63, -2 ** 31, -2 ** 15, -128, 0, "-inf", False}}
+
+    def __init__(self, r):
+        self.r = r
+
+    def matches(self, x):
+        if isinstance(x, float):
+            return False
+        return x in Ident.EXTREMES[self.r]
+
+    def __repr__(self):
+        return "Ident(%s)" % self.r
 
 
 def py_to_vjson(x):
@@ -65,6 +84,10 @@ def values_equal(a, b):
     numbers by numeric value (1 == 1.0 == True), records by key->value, NaN token equal to itself."""
     if a is None or b is None:
         return a is None and b is None
+    if isinstance(b, Ident):
+        return b.matches(a)
+    if isinstance(a, Ident):
+        return a.matches(b)
     if isinstance(a, (bool, int, float)) and isinstance(b, (bool, int, float)):
         return float(a) == float(b)
     if isinstance(a, str) or isinstance(b, str):
@@ -188,6 +211,9 @@ def steps_for(case, pick):
         op = {"op": "flatten", "src": "a", "axis": a["axis"]}
     elif act == "pad":
         op = {"op": "rpad_and_clip" if a["clip"] else "rpad", "src": "a", "axis": a["axis"], "target": a["target"]}
+    elif act == "reduce":
+        op = {"op": "reduce", "src": "a", "reducer": a["reducer"], "axis": a["axis"], "mask": a["mask"],
+              "keepdims": a["keepdims"]}
     elif act == "comb":
         op = {"op": "combinations", "src": "a", "axis": a["axis"], "n": a["n"], "replacement": a["repl"]}
     else:
@@ -331,11 +357,19 @@ def run_worker(worker, wcases, timeout=120, env=None):
 
 
 def _chunk_task(args):
-    worker, chunk, seed, env, translate, judge_fn = args
+    worker, src, seed, env, translate, judge_fn = args
     import importlib
     mod = importlib.import_module(translate[0])
     tr = getattr(mod, translate[1])
     jd = getattr(importlib.import_module(judge_fn[0]), judge_fn[1])
+    if isinstance(src, tuple):
+        path, off, nbytes, first_idx = src
+        with open(path, "rb") as f:
+            f.seek(off)
+            data = f.read(nbytes)
+        chunk = [(first_idx + k, json.loads(line)) for k, line in enumerate(data.splitlines()) if line.strip()]
+    else:
+        chunk = src
     wcases = []
     for idx, case in chunk:
         pick = Picker(seed * 1000003 + idx)
@@ -360,18 +394,47 @@ def _chunk_task(args):
     return stats, fails
 
 
+def _file_chunks(path, chunk, max_cases=None):
+    """split an ndjson file into (path, offset, nbytes, first_index) pieces of `chunk` lines without parsing"""
+    out = []
+    with open(path, "rb") as f:
+        off = 0
+        start = 0
+        n = 0
+        first = 0
+        for line in f:
+            off += len(line)
+            n += 1
+            if max_cases and n >= max_cases:
+                break
+            if n - first >= chunk:
+                out.append((path, start, off - start, first))
+                start = off
+                first = n
+        if off > start:
+            out.append((path, start, off - start, first))
+    return out
+
+
 def replay_cases(worker, cases, seed=0, jobs=16, chunk=1500, env=None,
-                 translate=("replay", "steps_for"), judge_fn=("replay", "judge"), max_fail_keep=100000):
-    """cases: iterable of case dicts.  Returns (stats, failures)."""
-    chunks = []
-    cur = []
-    for idx, case in enumerate(cases):
-        cur.append((idx, case))
-        if len(cur) >= chunk:
+                 translate=("replay", "steps_for"), judge_fn=("replay", "judge"), max_fail_keep=100000,
+                 max_cases=None):
+    """cases: path of an ndjson file (preferred: parsed in the worker processes) or an iterable of case dicts.
+    Returns (stats, failures)."""
+    if isinstance(cases, str):
+        chunks = _file_chunks(cases, chunk, max_cases)
+    else:
+        chunks = []
+        cur = []
+        for idx, case in enumerate(cases):
+            if max_cases and idx >= max_cases:
+                break
+            cur.append((idx, case))
+            if len(cur) >= chunk:
+                chunks.append(cur)
+                cur = []
+        if cur:
             chunks.append(cur)
-            cur = []
-    if cur:
-        chunks.append(cur)
     total = {"n": 0, "ok": 0, "err_expected": 0}
     fails = []
     nfail = 0
